@@ -66,6 +66,34 @@ fn explore(run: &mut Run, family: u8) {
         check_state(ctx, &g2, &n2, family);
         words_from(ctx, &g2, &extended(&small), &n2, len - 2, family);
     });
+    // CTORS: the other public constructors. (1) root differential on every game start: the complete
+    // chain state equals that of MoveChain::new (equal complete states have equal futures);
+    // (2) belt and braces: the same operation words from a root built by each constructor
+    {
+        let gsc = gs.clone();
+        run.seq(&format!("CTORS root differential: {} game starts x 5 constructors (from_fen, from_uci_list, clone, new_initial, Default) vs MoveChain::new, complete chain state", gs.len()), move |ctx| {
+            for g in &gsc {
+                ctor_differential(ctx, g);
+            }
+        });
+        let clen = if thorough { 8 } else { 7 };
+        let nc = CTOR_NAMES.len() - 1;
+        run.par_shards(&format!("CTORS WORDS: every operation word of length <= {} (G2, same alphabet as WORDS) from a root built by each of 5 other constructors", clen), nc * small.len(), |ctx, j| {
+            let ctor = (j / small.len() + 1) as u8;
+            let first = &small[j % small.len()];
+            CTOR.with(|c| c.set(ctor));
+            if let Some(r) = root(&g2) {
+                if j % small.len() == 0 {
+                    check_state(ctx, &g2, &r, family);
+                }
+                if let Some(n1) = apply(ctx, &g2, &r, first, family) {
+                    check_state(ctx, &g2, &n1, family);
+                    words_from(ctx, &g2, &extended(&small), &n1, clen - 1, family);
+                }
+            }
+            CTOR.with(|c| c.set(0));
+        });
+    }
     // LONG: single deep executions (hundreds of plies) with the same oracle
     let lp = crate::universe::long_params(thorough);
     let lmax = crate::universe::long_max(thorough);
